@@ -72,6 +72,12 @@ def gen_doc(r):
             if r.random() < 0.3:
                 lg2 = mk('legend', fs)
                 control(lg2)
+            if r.random() < 0.25:
+                # a framed document inside the fieldset: its controls belong to another document
+                ib = mk('body', mk('html', mk('iframe', r.choice([fs, fs.contents[-1]]))))
+                control(ib)
+                if r.random() < 0.5:
+                    control(mk('form', ib))
         else:
             d = mk('div', parent, contenteditable=r.choice([None, '', 'true', 'TRUE', 'false']))
             control(d)
@@ -90,9 +96,17 @@ def gen_doc(r):
                 control(parent)
             elif k < 0.75:
                 p = mk('p', parent, dir=r.choice([None, 'ltr', 'rtl', 'auto', 'AUTO', 'x']), lang=r.choice([None, 'en']))
-                p.append(bs4.NavigableString(r.choice(['text', 'שלום', '123', ''])))
-                b = mk(r.choice(['span', 'bdi', 'a', 'area']), p, href=r.choice([None, '#']))
+                first = r.random() < 0.5
+                if first:
+                    p.append(bs4.NavigableString(r.choice(['text', 'שלום', '123', ''])))
+                b = mk(r.choice(['span', 'bdi', 'a', 'area']), p, href=r.choice([None, '#']),
+                       dir=r.choice([None, None, 'auto', 'Auto', 'ltr', 'rtl', '']))
                 b.append(bs4.NavigableString(r.choice(['ا', 'b', ''])))
+                if r.random() < 0.3:
+                    b2 = mk(r.choice(['b', 'script', 'textarea']), b)
+                    b2.append(bs4.NavigableString(r.choice(['ا', 'b'])))
+                if not first or r.random() < 0.3:
+                    p.append(bs4.NavigableString(r.choice(['text', 'שלום', ' 1 ', 'x'])))
             elif depth < 1:
                 fr = mk('iframe', parent)
                 ih = mk('html', fr)
@@ -322,6 +336,145 @@ def ref_range_domain(els):
     return out
 
 
+CONTROL_TAGS = ('button', 'select', 'textarea', 'fieldset')
+TEXT_TYPES = (None, '', 'text', 'search', 'url', 'tel', 'email', 'number', 'password', 'date', 'datetime-local', 'month', 'time',
+              'week')
+
+
+def is_control(e):
+    return is_html(e) and (tag(e) in CONTROL_TAGS or (tag(e) == 'input' and low(attr(e, 'type')) != 'hidden'))
+
+
+def ref_disabled(els):
+    """HTML: a control is disabled when it carries `disabled`, or when it is a descendant of a disabled fieldset and not
+    inside that fieldset's first legend child; an option also when its parent optgroup is disabled."""
+    out = set()
+    for e in els:
+        if not is_html(e):
+            continue
+        t = tag(e)
+        if (is_control(e) or t in ('optgroup', 'option')) and attr(e, 'disabled') is not None:
+            out.add(id(e))
+            continue
+        if t == 'option':
+            p = doc_parent(e)
+            if p is not None and tag(p) == 'optgroup' and is_html(p) and attr(p, 'disabled') is not None:
+                out.add(id(e))
+            continue
+        if not is_control(e):
+            continue
+        child = e
+        anc = doc_parent(e)
+        while anc is not None:
+            if tag(anc) == 'fieldset' and is_html(anc) and attr(anc, 'disabled') is not None:
+                if child is e:
+                    out.add(id(e))
+                    break
+                legends = [c for c in anc.contents if rm.is_element(c) and tag(c) == 'legend' and is_html(c)]
+                if not (legends and legends[0] is child):
+                    out.add(id(e))
+                    break
+            child = anc
+            anc = doc_parent(anc)
+    return out
+
+
+def ref_read_write(els, disabled):
+    out = set()
+    for e in els:
+        if not is_html(e):
+            continue
+        t = tag(e)
+        ce = attr(e, 'contenteditable')
+        if ce is not None and (ce == '' or low(ce) == 'true'):
+            out.add(id(e))
+            continue
+        if (t == 'textarea' or (t == 'input' and low(attr(e, 'type')) in TEXT_TYPES)) and attr(e, 'readonly') is None \
+                and id(e) not in disabled:
+            out.add(id(e))
+    return out
+
+
+def ref_checked(els):
+    out = set()
+    for e in els:
+        if is_html(e) and ((tag(e) == 'input' and low(attr(e, 'type')) in ('checkbox', 'radio') and attr(e, 'checked') is not None)
+                           or (tag(e) == 'option' and attr(e, 'selected') is not None)):
+            out.add(id(e))
+    return out
+
+
+def _strong(ch):
+    import unicodedata
+    b = unicodedata.bidirectional(ch)
+    return {'L': 'ltr', 'R': 'rtl', 'AL': 'rtl'}.get(b)
+
+
+def _auto_text(e):
+    """First strong directional character among the text of e, skipping bdi/script/style/textarea/iframe children and
+    children that carry their own valid dir attribute."""
+    for n in e.contents:
+        if rm.is_element(n):
+            if tag(n) in ('bdi', 'script', 'style', 'textarea', 'iframe') or not is_html(n) or \
+                    low(attr(n, 'dir') or '') in ('ltr', 'rtl', 'auto'):
+                continue
+            d = _auto_text(n)
+            if d:
+                return d
+        elif rm.is_text(n):
+            for ch in n:
+                d = _strong(ch)
+                if d:
+                    return d
+    return None
+
+
+def ref_dir(e):
+    """Directionality of an HTML element (HTML 'the directionality'), as far as the library documents it."""
+    d = low(attr(e, 'dir') or '')
+    if d in ('ltr', 'rtl'):
+        return d
+    root = doc_parent(e) is None
+    t = tag(e)
+    ty = low(attr(e, 'type')) if t == 'input' else None
+    if root and d != 'auto':
+        return 'ltr'
+    if t == 'input' and ty == 'tel' and d != 'auto':
+        return 'ltr'
+    if d == 'auto' and (t == 'textarea' or (t == 'input' and ty in ('text', 'search', 'tel', 'url', 'email'))):
+        value = ''.join(str(n) for n in e.contents if rm.is_text(n)) if t == 'textarea' else (attr(e, 'value') or '')
+        if value:
+            for ch in value:
+                s = _strong(ch)
+                if s:
+                    return s
+            return 'ltr'
+        if root:
+            return 'ltr'
+        return ref_dir(doc_parent(e))
+    if d == 'auto' or t == 'bdi':
+        s = _auto_text(e)
+        if s:
+            return s
+        if root:
+            return 'ltr'
+        return ref_dir(doc_parent(e))
+    return ref_dir(doc_parent(e))
+
+
+def definitions(r, els):
+    """Reference definitions of :disabled, :required, :read-write, :checked, :link and :dir()."""
+    dis = ref_disabled(els)
+    ok = r[':disabled'] == dis
+    ok = ok and r[':required'] == set(id(e) for e in els if is_html(e) and tag(e) in ('input', 'select', 'textarea') and
+                                     attr(e, 'required') is not None)
+    ok = ok and r[':read-write'] == ref_read_write(els, dis)
+    ok = ok and r[':checked'] == ref_checked(els)
+    ok = ok and r[':link'] == set(id(e) for e in els if is_html(e) and tag(e) in ('a', 'area') and attr(e, 'href') is not None)
+    ok = ok and r[':dir(ltr)'] == set(id(e) for e in els if is_html(e) and ref_dir(e) == 'ltr')
+    return ok
+
+
 def doc_laws_ok(di: int) -> bool:
     """
     pre: 0 <= di < ND
@@ -337,6 +490,7 @@ def doc_laws_ok(di: int) -> bool:
         ok = ok and r[':indeterminate'] == ref_indeterminate(els)
         ok = ok and r[':placeholder-shown'] == ref_placeholder(els)
         ok = ok and (r[':in-range'] | r[':out-of-range']) == ref_range_domain(els)
+        ok = ok and definitions(r, els)
     return ret(ok)
 
 
